@@ -53,7 +53,7 @@ claim("C17", "resolved delegation chain of the trait impls + read-set/control-de
       "Sound static decision that the four label input forms converge on one constructor with the same labels, that time stamps are read only under the alignment flag and cannot influence the parsed labels, that blank lines are the only silently skipped lines and every other line pushes exactly one label and one time pair or returns an error, and that no panic-capable construct in the reader is unaudited (fallible parses are propagated as LabelError -> EngineError). jlabel's own parser is a model entry in the quick tier and scanned in the thorough tier.")
 
 claim("C15", "closed-form constant checks + write-set and polynomial/clamp normal form of the shift's single store + call-site uniqueness + access-path taint (non-interference) through the pipeline wiring incl. closures, over rustc MIR",
-      "Sound static decision that the shift constant is ln2/12 and the clamp bounds ln20/ln20000, that the shift writes only the mean of the static log-F0 component as clamp(old + h*HALF_TONE, MIN, MAX) and nothing for h = 0, that it is applied exactly once to stream 1 before MLPG, and that condition.additional_half_tone reaches only the lf0 trajectory (not durations, spectrum, LPF, vocoder, nor any branch).")
+      "Sound static decision that the shift constant is ln2/12 and the clamp bounds ln20/ln20000, that the shift writes only the mean of the static log-F0 component as clamp(old + h*HALF_TONE, MIN, MAX), for every state (plain traversal, no filter or data-dependent guard: voicing is decided later against the configured threshold) and nothing for h = 0, that it is applied exactly once to stream 1 before MLPG, and that condition.additional_half_tone reaches only the lf0 trajectory (not durations, spectrum, LPF, vocoder, nor any branch).")
 claim("C11", "normal form of the voicing predicate + index agreement and parameter->field roles at the three pipeline call sites + access-path taint for 6 sources (per-stream threshold and GV weight) + const-item identity of the no-data marker between writer and reader, over rustc MIR",
       "Sound static decision that a frame's voicing flag is `msd > threshold` (strict, hence antitone in the threshold), that each stream's MlpgAdjust receives the threshold/GV weight/model of its own index and lands in the SpeechGenerator parameter of that stream, that msd_threshold[k] and gv_weight[k] influence only stream k's trajectory, that unvoiced frames carry the NODATA const item which the vocoder maps to period 0 and period 0 selects noise, and that non-MSD streams get a sentinel above every threshold.")
 
@@ -63,14 +63,14 @@ claim("C10", "iterator typestate on the two cursors of the blending function + e
 claim("C04", "resolved dataflow from tuple positions / header fields to aggregate fields + exact polynomial forms of index bases and record lengths + control dependence on string-literal comparisons + derive key-table check, over rustc MIR",
       "Sound static decision of every layout convention between the voice-file reader and its consumers: header field -> metadata field (same name; serde keys = upper-case field names), node-line token -> yes/no child -> tree walk direction, tree index +2/-2 and 1-based PDF ids, the mean|variance|msd split and the three PDF record lengths, little-endian f32 widened exactly to f64, option key -> condition field, and fast-matcher-then-regex wiring. NOT decided: the wildcard semantics inside the third-party jlabel-question crate and window text -> float parsing.")
 
-claim("C14", "dominating-guard (no-effect) rule + exact polynomial forms of the coefficient updates and conversion recurrences + dominance ordering of the energy measurements + a polynomial identity computed by the checker + parameter plumbing/taint of beta, over rustc MIR",
-      "Sound static decision of the structural clauses of C14: the postfilter has no effect for beta <= 0 or order <= 2 (both filter families); b1 <- b1 - beta*alpha*b2, b_k <- (1+beta) b_k for k >= 2, b0 <- b0 + ln(e1/e2)/2 with e1/e2 measured before/after; with c_i = b_i + alpha b_{i+1} these give c1 unchanged and c_k scaled by 1+beta (identity checked algebraically); condition.beta is what both postfilters receive and reaches nothing else. NOT decided: energy preserved within 1 % (576-tap truncation).")
+claim("C14", "dominating-guard (no-effect) rule + exact polynomial forms of the coefficient updates and conversion recurrences + dominance ordering of the energy measurements + a polynomial identity computed by the checker + recurrence recognition of what the energy measurement computes (frequency transform fed from the highest order down, cepstrum -> impulse response, sum of squares) + parameter plumbing/taint of beta, over rustc MIR",
+      "Sound static decision of the structural clauses of C14: the postfilter has no effect for beta <= 0 or order <= 2 (both filter families); b1 <- b1 - beta*alpha*b2, b_k <- (1+beta) b_k for k >= 2, b0 <- b0 + ln(e1/e2)/2 with e1/e2 measured before/after; with c_i = b_i + alpha b_{i+1} these give c1 unchanged and c_k scaled by 1+beta (identity checked algebraically); b1 is compensated before b2 is scaled; the compensated energy b2en is sum ir^2 with ir = c2ir(freqt(b2mc(b, alpha), N-1, -alpha), N), freqt being the frequency-transformation recursion consumed from the highest input order down on a zero-initialised buffer and c2ir h[n] = (sum k c[k] h[n-k])/n (the ascending input order of the pinned tree was a genuine defect, repaired); condition.beta is what both postfilters receive and reaches nothing else. NOT decided: that the 576-tap truncation and the Pade approximation of the synthesis filter keep the realised energy within 1 %.")
 
 claim("C07", "closed-form constants + per-branch store signatures with normalised guards and dominance order + SIBLINGS comparison of the two cloned branches + polynomial forms of the tap updates + event-sequence comparison of the two filter families, over rustc MIR",
       "Sound static decision of the structural clauses of C07: F0 limits ln20/ln20000 and period = rate/exp(clamp(lf0)); the pitch accumulator (counter += 1; on counter >= T0: counter -= T0, pulse sqrt(T0); linear glide per sample; start/end semantics) in BOTH the ring-buffer and the never-tested no-LPF branch, which are compared with each other on every run; the mixed-excitation taps noise*(delta-h) + pulse*h; identical excitation event sequences for the MLSA and LSP families. NOT decided: noise statistics.")
 
-claim("C05", "truth table of the masking decision read off the switchInt chain (all assignments of its comparison atoms) + structural identity of the expansion/filter pipelines + const-item fill, over rustc MIR",
-      "Sound static decision of the second sentence of C05 only: a dynamic-window observation's precision is zeroed exactly when its window span touches an unvoiced frame or the utterance edge ((left < left_width or right < right_width) and window != static), frames outside the voicing mask carry the no-data constant, and the mask and every per-window parameter sequence are expanded by the same durations and filtered by the same mask (frame -> state assignment shared). NOT decided: that the banded LDL solve maximises the likelihood.")
+claim("C05", "truth table of the masking decision read off the switchInt chain (all assignments of its comparison atoms) + structural identity of the expansion/filter pipelines + const-item fill + recurrence recognition: the band LDL^T factorisation and both substitutions as index polynomials over symbolised loop variables (bounds, nesting, order), over rustc MIR",
+      "Sound static decision of the second sentence of C05 and of the algorithmic shape behind the first: a dynamic-window observation's precision is zeroed exactly when its window span touches an unvoiced frame or the utterance edge ((left < left_width or right < right_width) and window != static), frames outside the voicing mask carry the no-data constant, and the mask and every per-window parameter sequence are expanded by the same durations and filtered by the same mask (frame -> state assignment shared); solve() is exactly the band LDL^T algorithm (A[t][i] -= A[t-k][k] A[t-k][i+k] A[t-k][0] over k in 1..min(width-i, t+1), normalisation after both sums, forward g[t] = b[t] - sum A[t-k][k] g[t-k], backward c[t] = g[t]/A[t][0] - sum A[t][k] c[t+k], factorise before substituting) - wrong operands here only show for windows wider than the bundled ones. NOT decided: the assembly of W'U^-1W through the window iterators and the rounding accuracy of the result.")
 
 claim("C12", "polynomial form of the GV target + taint from the weight inside the solver entry (GV-less path independent) + read-set of the weight + no-effect rule for the zero-eligible-frames return + structural identity of the switch pipeline, over rustc MIR",
       "Sound static decision of the structural clauses of C12: the GV target is gv_mean[vector_index] x gv_weight; a stream without GV returns the plain ML solution independently of the weight, and the weight is read nowhere else; with no eligible frame the trajectory is returned unmodified; the per-state switch is !gv_off_context.test(label), expanded by the same durations and filtered by the same mask as the parameters, and both the variance rescaling and the GV gradient term touch switched-on frames only. NOT decided: the 20 % variance law and monotonicity (numerical).")
